@@ -27,7 +27,7 @@ func Spec() *evid.Spec {
 	return &evid.Spec{
 		ID:    "C10",
 		Level: "exploration",
-		Rule: "each case = one execution of real duty runners (committee 4 or 7, one of the 5 consensus roles, 0..f silent operators) forced through r-1 failed rounds (proposal lost / prepared but commits lost / proposal seen by a subset / a single operator prepared whose prepared round-change reaches the next leader last; all or only f+1 operators time out) " +
+		Rule: "each case = one execution of real duty runners (committee 4 or 7, one of the 5 consensus roles, 0..f silent operators) forced through r-1 failed rounds (proposal lost / prepared but commits lost / proposal seen by a subset / a single operator prepared whose prepared round-change reaches the next leader last; all, only f+1, or all operators but the next leader time out) " +
 			"and decided in round r <= the role's maximum; every broadcast (pre-consensus, proposal, prepare, commit, round-change with and without prepared value, justified proposals, aggregated decided, post-consensus) gets a virtual emission time inside the " +
 			"round window derived from the round timer's rule and is validated on a per-peer real validator (both envelope phases) at emission + d, d = 0 / random / end of the sender's round window. Oracle: never reject; fault-free in-order timely runs: accept. " +
 			"Non-trivial = execution that decided after at least one failed round (or fault-free for the accept clause); distinct = (role, N, failure pattern, decision round)",
@@ -244,9 +244,26 @@ func run(c *evid.Case) {
 		})
 		// timeouts: all, or only f+1 (the others follow through the partial quorum)
 		tos := hon
-		if rng.Intn(3) == 0 && len(hon) > f+1 {
-			tos = hon[:f+1]
-			pattern += "q"
+		switch rng.Intn(3) {
+		case 0:
+			if len(hon) > f+1 {
+				tos = hon[:f+1]
+				pattern += "q"
+			}
+		case 1:
+			// everybody but the next round's leader times out: the leader hears a whole quorum of round-changes for the next
+			// round before its own timer (it must first be pulled forward by the f+1 rule and only then propose)
+			nl := qsim.Leader(n, height, specqbft.Round(r+1))
+			var rest []*dsim.Operator
+			for _, op := range hon {
+				if op.ID != nl {
+					rest = append(rest, op)
+				}
+			}
+			if len(rest) < len(hon) {
+				tos = rest
+				pattern += "L"
+			}
 		}
 		lateLocked := lockedOp != 0 && rng.Intn(4) != 0
 		deliverRCs := func() {
